@@ -51,6 +51,7 @@ DerivedOf(s, e) ==
 
 Run0(e) == [ cfg |-> e, started |-> <<>>, ended |-> {}, failed |-> {}, failedSeq |-> <<>>,
              sig |-> FALSE, afterSig |-> 0, aborted |-> FALSE, returned |-> FALSE,
+             sigInside |-> FALSE,                   \* the signal was sent by a user future in the middle of a poll
              pulls |-> 0, pullsAfterSig |-> 0,      \* hook `ready_recv`: functions handed out by the ready stream
              acts |-> 0, pits |-> 0,                \* calls of fn_interrupt_activate / fn_interrupt_poll_item
              pendingOpen |-> FALSE, sEnded |-> FALSE, intSeen |-> FALSE, obs |-> <<>> ]
@@ -196,6 +197,11 @@ HandOut(s, r, R0, f) ==
            \* pulled before the signal and only got its first poll after it (signal sent in the middle of a poll).
            ELSE IF R0.pulls > 0 /\ C08_AfterSignal([o EXCEPT !.afterSig = R0.pullsAfterSig])
                 THEN <<V("C08", "started after the signal although handed out before it")>>
+           \* A signal sent in the middle of a poll, in a trace WITHOUT fn_graph's own events: whether the surplus
+           \* function was handed out before or after the signal cannot be told from this trace, so it decides nothing
+           \* (the harness records such runs with hooks on; this clause only keeps a hook-less trace from raising the
+           \* known finding as a new violation).
+           ELSE IF R0.pulls = 0 /\ R0.sigInside /\ IsConcurrent(o) THEN <<>>
                 ELSE <<V("C08", "too many functions after the signal")>>)
        \o If(C08_PreSignal(o), "C08", "too many functions with a pending signal")
        \o If(C10_HandOut(o, InFlight(o)), "C10", "limit exceeded") ]
@@ -220,7 +226,9 @@ OnCancel(s, e) ==
        v  |-> If(R0.aborted, "C04", "a started function was dropped before it completed") ]
 
 OnSignal(s, e) ==
-  LET r == e.run  R == [s.runs[r] EXCEPT !.sig = @ \/ e.sent] IN
+  LET r == e.run
+      first == ~s.runs[r].sig /\ e.sent
+      R == [s.runs[r] EXCEPT !.sig = @ \/ e.sent, !.sigInside = @ \/ (first /\ "inside" \in DOMAIN e)] IN
   [ st |-> SetRun(s, r, LogIf(s, R, e)), v |-> <<>> ]
 
 (* the edges that can matter for "is every unstarted function still blocked": those into unstarted functions *)
